@@ -1241,6 +1241,13 @@ class DepthSuite(Suite):
                         if flt != "-" and kind in (3, 7):
                             continue
                         cases.append(Case("depth %s %d %d %s %s" % (fmt, cb, L, flt, hx(txt)), L=L, d=d, kind=kind, fmt=fmt, closed=kind in (0, 1, 4, 5, 7), flt=flt))
+        if self.cfg.get("ENABLE_COMMENTS"):
+            # runs of consecutive comments must not cost stack: kind 9, d = number of comments (the post hook compares the stack used)
+            for k in (1, 10, 1000, 20000):
+                for shape in (b"%s1", b"[%s1]", b"[1%s,2]", b'{"a"%s:[%s]}'):
+                    for com in (b"/**/", b"//x\n", b"/* c */ "):
+                        txt = shape.replace(b"%s", com * k)
+                        cases.append(Case("depth j %d 10 - %s" % (cb, hx(txt)), L=10, d=1, kind=9, fmt="j", closed=True, flt="-", ncom=k, shape=shape + com))
         # bushy documents: many siblings (empty containers included) at every level, so that the limit must be a function of the depth and
         # not of how many containers were met before; real depth computed by the generator; filters that keep, discard or descend
         nb = 1500 if tier == "quick" else 60000
@@ -1326,6 +1333,7 @@ class DepthSuite(Suite):
         rows = []
         bushy = []
         chainmax = {}
+        comments = {}
         for c, h in zip(cases, ho):
             if is_crash(h):
                 continue
@@ -1335,6 +1343,9 @@ class DepthSuite(Suite):
                 continue
             stack = int(st[0][6:])
             key = (c.meta["L"], c.meta["kind"], c.meta["flt"])
+            if c.meta["kind"] == 9:
+                comments.setdefault(c.meta["shape"], {})[c.meta["ncom"]] = (stack, c)
+                continue
             if c.meta["kind"] == 8:
                 bushy.append((c, stack))
                 continue
@@ -1345,6 +1356,11 @@ class DepthSuite(Suite):
         for key, c, stack in rows:
             if key in ref and stack > ref[key] + 1024:
                 out.append(("depth:stack", "limit %d: an input of depth %d uses %d bytes of stack, one of depth L+1/L+2 uses %d" % (key[0], c.meta["d"], stack, ref[key]), c))
+        for shape, by in comments.items():
+            if 1 in by:
+                for k, (stack, c) in by.items():
+                    if stack > by[1][0] + 1024:
+                        out.append(("depth:stack", "%d consecutive comments use %d bytes of stack, one comment uses %d: the stack consumed depends on the content of the input" % (k, stack, by[1][0]), c))
         # bushy documents under limit L never use more stack than the deepest chains under the next larger limit of the chain series
         for c, stack in bushy:
             bigger = sorted(L2 for (fm, L2) in chainmax if fm == c.meta["fmt"] and L2 >= c.meta["L"])
@@ -1695,7 +1711,11 @@ class StreamSuite(Suite):
                     parts.append(lead + txt + sep)
                     docs.append((exp, len(lead) + len(txt), isnum))
                 data = b"".join(parts)
-                cases.append(Case("stream %d 20 %d %s" % (cb, rng.choice([0, 1, 3]), hx(data)), fmt="j", docs=docs, parts=parts))
+                cases.append(Case("stream %d 20 %d %s" % (cb, rng.choice([0, 1, 3]), hx(data)), fmt="j", docs=list(docs), parts=parts))
+                if rng.random() < 0.4:
+                    # the same stream read with a filter: discarded parts are skipped, and must be skipped exactly
+                    flt = gen_filter(rng, keys=(b"a", b"b", b"k", b""))
+                    cases.append(Case("streamf %d 20 %d %s %s" % (cb, rng.choice([0, 1, 3]), hx(flt), hx(data)), fmt="jf", docs=list(docs), parts=parts))
             else:
                 vals = [mpack.gen_value(rng, maxdepth=3) for _ in range(k)]
                 encs = [mpack.encode(v, rng) for v in vals]
@@ -1737,7 +1757,7 @@ class StreamSuite(Suite):
             want = pos + used
             if (not isnum and got != want) or (isnum and not (want <= got <= want + 1)):
                 return ("stream:consumption", "after document %d (%r) the reader is at %d, the value ends at %d" % (i, part[:40], got, want))
-            probs = gens.match_expected(exp, parse_tree(f[1]))
+            probs = gens.match_expected(exp, parse_tree(f[1])) if case.meta["fmt"] == "j" else []      # with a filter only the consumption is judged here (the value is C11's subject)
             if probs:
                 sig = "stream:wrong-value"
                 if any("relative error" in p or "infinity" in p or "magnitude" in p for p in probs):
@@ -2150,6 +2170,11 @@ class CmpSuite(Suite):
 
     def generate(self, rng, tier):
         pool = self.pool()
+        if self.cfg.get("USE_DOUBLE", 1) == 0:
+            # doubles are stored as floats in this build: keep them out of the documents (the comparison itself is still made in double),
+            # and add integers that a float cannot hold exactly next to the floats nearest to them
+            pool = [x for x in pool if "d" not in re.sub(r"m:[0-9a-f]*", "", x) or not re.search(r"d[0-9a-f]{16}", x)]
+            pool += ["U16777217", "U16777216", "f4b800000", "U4294967295", "f4f800000", "I-16777217", "fcb800000", "U1000000001", "f4e6e6b28"]
 
         def spec(x):
             return x if x.startswith("m:") or x == "?" else "t:" + x
@@ -2340,6 +2365,8 @@ GEOMETRIES = {
     "id1c10": {"POOL_CAPACITY": 10, "INITIAL_POOL_COUNT": 1, "SLOT_ID_SIZE": 1},
     "id1i3": {"POOL_CAPACITY": 4, "INITIAL_POOL_COUNT": 3, "SLOT_ID_SIZE": 1},
     "len1": {"POOL_CAPACITY": 128, "INITIAL_POOL_COUNT": 2, "SLOT_ID_SIZE": 2, "STRING_LENGTH_SIZE": 1},
+    # more inline pool entries than the id range can address (maxPools = 2 < INITIAL_POOL_COUNT = 4)
+    "id1c128": {"POOL_CAPACITY": 128, "INITIAL_POOL_COUNT": 4, "SLOT_ID_SIZE": 1},
     "len4": {"POOL_CAPACITY": 256, "INITIAL_POOL_COUNT": 4, "SLOT_ID_SIZE": 4, "STRING_LENGTH_SIZE": 4},
     # no 64-bit integer storage: doubles are then the only users of extension slots (histories restricted to 32-bit integers)
     "nolonglong": {"USE_LONG_LONG": 0, "POOL_CAPACITY": 3, "INITIAL_POOL_COUNT": 1, "SLOT_ID_SIZE": 2},
@@ -2556,6 +2583,17 @@ class LimitSuite(HistSuite):
                 if i % 64 == 0 or i >= limit - 3:
                     ops.append("obs 0 1")
             ops += ["obs 0 1", "remi 1 0", "remi 1 0", "obs 0 1", "add 1 i 777", "add 1 sc 6162", "obs 0 1", "cleardoc 0", "obs 0", "root 0 0", "add 0 i 1", "obs 0"]
+            # the last free slot goes to a value that also needs an extension slot (double, 64-bit integer): clean failure, flag set
+            if extra == 0:
+                ops += ["cleardoc 0", "root 0 0", "toarr 1 0"]
+                for i in range(limit - 1):
+                    ops.append("add 1 i %d" % i)
+                # exactly one slot left: the element slot is obtained, the extension slot is not
+                ops += ["obs 0", "add 1 d 3fb999999999999a", "obs 0", "cleardoc 0", "root 0 0", "toarr 1 0"]
+                for i in range(limit - 1):
+                    ops.append("add 1 i %d" % i)
+                ops += ["add 1 i 9223372036854775807", "obs 0", "remi 1 0", "remi 1 0", "add 1 d 3fb999999999999a", "obs 0 1",
+                        "cleardoc 0", "root 0 0", "toarr 1 0", "add 1 d 3fb999999999999a", "obs 0 1"]
             # the cleared document grows past its built-in pools again (twice: through clear() and through to<JsonArray>())
             refill = geo[0] * geo[1] + geo[0] + 2
             for rnd_ in range(2):
